@@ -7,4 +7,5 @@ cd /verif || exit 2
 if [ ! -x bin/gosmt ] || [ -n "$(find engine -name '*.go' -newer bin/gosmt 2>/dev/null | head -1)" ]; then
   (cd engine && go build -o ../bin/gosmt .) || { echo "INCONCLUSIVE: engine build failed"; exit 2; }
 fi
-exec ./bin/gosmt check "$1" --tier "${2:-quick}"
+p=$1; t=${2:-quick}; [ $# -ge 1 ] && shift; [ $# -ge 1 ] && shift
+exec ./bin/gosmt check "$p" --tier "$t" "$@"
